@@ -28,6 +28,13 @@ def install(w):
     prev_construct = w.construct_ext
 
     def construct_ext(it, cls, args, kwargs, node):
+        import operator
+        if cls is operator.attrgetter:
+            if len(args) != 1 or getattr(args[0], "lit", None) is None or kwargs:
+                raise Unsupported("attrgetter other than attrgetter('<literal dotted name>')")
+            w.trusted_used.add("operator.attrgetter('a.b'): calling it reads x.a.b")
+            g = VFunc(None, builtin="attrgetter", name="attrgetter", recv=VConst(args[0].lit.split(".")))
+            return g
         if cls is functools.partial:
             if not args or not isinstance(args[0], VFunc) or kwargs:
                 raise Unsupported("functools.partial of a non-function or with keywords")
@@ -302,15 +309,38 @@ def install(w):
         return v
     w.builtins["bi:zip"] = b_zip
 
+    def b_attrgetter(it, f, args, kw, node):
+        v = args[0]
+        for a in f.recv.obj:
+            v = it.getattr(v, a, node)
+        return v
+    w.builtins["attrgetter"] = b_attrgetter
+
+    def b_sum(it, f, args, kw, node):
+        """sum(<comprehension of bools/ints>): only its range is modelled."""
+        from .sym import VList, VInt
+        if len(args) != 1 or not isinstance(args[0], VList):
+            raise Unsupported("sum() other than sum(<generator expression>)")
+        L = it.st.lists[args[0].oid]
+        if L.spec != "bool":
+            raise Unsupported("sum() of a comprehension whose elements are not bools")
+        w.trusted_used.add("sum(<bools>): an integer between 0 and the number of elements")
+        r = it.fresh_int("sum")
+        it.assume(z3.And(r.t >= 0, r.t <= L.len))
+        return r
+    w.builtins["bi:sum"] = b_sum
+
     def b_next(it, f, args, kw, node):
         """next(<comprehension result>, default): the first element, or the default."""
         from .sym import VList
-        if len(args) != 2 or not isinstance(args[0], VList):
-            raise Unsupported("next() other than next(<generator expression>, default)")
-        w.trusted_used.add("next(gen, default): the first element the generator yields, else default")
+        if len(args) not in (1, 2) or not isinstance(args[0], VList):
+            raise Unsupported("next() other than next(<generator expression>[, default])")
+        w.trusted_used.add("next(gen[, default]): the first element the generator yields, else default / StopIteration")
         L = it.st.lists[args[0].oid]
         if it.decide(L.len > 0):
             return it.index(args[0], __import__("pyvc.sym", fromlist=["VInt"]).VInt(0), node)
+        if len(args) == 1:
+            it.throw(StopIteration, node, "SAFE-Stop", _src(node)[:60])
         return args[1]
     w.builtins["bi:next"] = b_next
 
